@@ -70,6 +70,16 @@ func mutations() []mutation {
 			c.Txs[1].Signature.Signature = flip(c.Txs[1].Signature.Signature)
 			return c
 		}},
+		{"block:invalid-block-signature", true, false, func(e *treex.Env, b *types.Block) *types.Block {
+			c := clone(b)
+			c.Signature = &types.Signature{Ty: types.SECP256K1, Pubkey: c.Txs[0].Signature.Pubkey, Signature: flip(c.Txs[0].Signature.Signature)}
+			return c
+		}},
+		{"block:invalid-block-signature-while-txs-in-mempool", true, true, func(e *treex.Env, b *types.Block) *types.Block {
+			c := clone(b)
+			c.Signature = &types.Signature{Ty: types.SECP256K1, Pubkey: c.Txs[0].Signature.Pubkey, Signature: flip(c.Txs[0].Signature.Signature)}
+			return c
+		}},
 		{"body:pubkey-replaced", true, false, func(e *treex.Env, b *types.Block) *types.Block {
 			c := clone(b)
 			c.Txs[1].Signature.Pubkey = flip(c.Txs[1].Signature.Pubkey)
